@@ -1,6 +1,8 @@
 """C06 - request-path matching and system lookup are exact and equal for HTTP and TFTP."""
+import itertools
 import json
 import os
+import sqlite3
 import urllib.parse
 
 import common
@@ -14,8 +16,17 @@ TABLE = {
     ("k", "s:a"): ("id", "sysA"),
     ("k", "s:A"): ("id", "sys-A"),
     ("k", "s:T-a-S"): ("id", "sysT"),
-    ("k", "s:b"): ("raise",),
-    ("k", "s:T-b-S"): ("raise",),
+    ("k", "s:b"): ("raise", RuntimeError),
+    ("k", "s:T-b-S"): ("raise", KeyError),
+    # the class of the exception is a dimension: Exception subclasses outside the usual families, and BaseException
+    ("k", "s:ba"): ("raise", sqlite3.OperationalError),
+    ("k", "s:aba"): ("raise", fileh.WeirdError),
+    ("k", "s:."): ("raise", OSError),
+    ("k", "s:2"): ("raise", fileh.HarnessBaseException),
+    ("k", "int:2"): ("raise", fileh.HarnessBaseException),
+    ("k", "int:1"): ("raise", sqlite3.OperationalError),
+    ("k", "s:02:03:04:05:06:0A"): ("id", "sysMAC"),
+    ("k", "s:02:03:04:05:06:0C"): ("raise", fileh.WeirdError),
     ("k", "s:x"): ("none",),
     ("k", "s:ab"): ("id", "sysAB"),
     ("k", "int:12"): ("id", "sys12"),
@@ -32,10 +43,15 @@ TABLE = {
     ("k", "s::system_id:"): ("id", ":system_id:"),
     ("k", "s:..."): ("id", "None"),
 }
-RAISING = ["s:sys-A", "s:b", "s:T-b-S", "int:7", "list:['b']"]       # get_data raises for these (tagged) ids
+# get_data raises for these (tagged) ids: Exception subclasses of various families ...
+RAISING = {"s:sys-A": RuntimeError, "s:b": sqlite3.OperationalError, "s:T-b-S": fileh.WeirdError, "int:7": OSError,
+           "list:['b']": KeyError, "s:02:03:04:05:06:0B": sqlite3.ProgrammingError}
+# ... and one that is not derived from Exception
+RAISING_BASE = {"s:ba": fileh.HarnessBaseException, "int:1": fileh.HarnessBaseException, "s:sysAB": fileh.HarnessBaseException}
+ALL_RAISING = dict(RAISING, **RAISING_BASE)
 EMPTIES = ["s:sysT", "int:0", "s:0", "s:None"]                         # get_data returns {} for these (tagged) ids
-FS_ROWS = [[k, v, {"none": 0, "id": 1, "raise": 2}[r[0]], fileh.tag(r[1]) if r[0] == "id" else ""]
-           for (k, v), r in TABLE.items()]
+FS_ROWS = [[k, v, (3 if (r[0] == "raise" and not issubclass(r[1], Exception)) else {"none": 0, "id": 1, "raise": 2}[r[0]]),
+            fileh.tag(r[1]) if r[0] == "id" else ""] for (k, v), r in TABLE.items()]
 
 ALPHABET = ["/", "a", "b", "pre-", "-suf", "x", "%2f", "%2F", "%41", "?q", "%00", "\0", "A", ".", "%25", "%3f", "12"]
 
@@ -62,6 +78,10 @@ TYPED_SETTINGS = [
     dict(key="k", chain=[{"string.split": "-"}], cont=True),
     dict(key=":system_id:", chain=[{"string.split": ["-"]}]),
     dict(key="k", chain=[{"string.add_prefix": "1"}, "misc.to_int"], cont=True, ign=2),
+    # chains that reject malformed values (the exception is the result of the request)
+    dict(key="k", chain=[{"misc.to_int": {"raise_error_if_malformed": True}}], cont=True, ign=1),
+    dict(key=":system_id:", chain=[{"mac_address.normalize": {"raise_error_if_malformed": True}}]),
+    dict(key="k", chain=[{"mac_address.normalize": {"raise_error_if_malformed": True}}], cont=True, ign=2),
 ]
 
 
@@ -97,12 +117,13 @@ def base_requests(cfg):
     ph = fileh.PH_DEFAULT if cfg["ph"] is None else cfg["ph"]
     values = ["a", "A", "%41", "b", "x", "ab", "", "a/b", "a%2fb", "pre-a-suf", "ba", "aba", ".", "%2541", "%252f",
               "12", "2", "7", "a-b", "%31%32", "b-",
-              "0", "00", "None", "%c3%a9", "\xe9", "...", ":system_id:", "%30"]
+              "0", "00", "None", "%c3%a9", "\xe9", "...", ":system_id:", "%30",
+              "02-03-04-05-06-0a", "02-03-04-05-06-0B", "2-3-4-5-6-c", "zz", "1"]
     extras = ["", "/a", "/b", "/bb/a", "//a", "/", "/a/", "?q", "/a?q", "/%41"]
     outs = []
     if cfg["key"] and ph and ph in rp:
         for vi, v in enumerate(values):
-            if 15 <= vi < 21 and not cfg.get("chain"):
+            if (15 <= vi < 21 or vi >= 29) and not cfg.get("chain"):
                 continue
             for e in (extras if vi < 2 else (extras[:2] if vi < 6 else extras[:1] if cfg["filemode"] else extras[1:2])):
                 outs.append(rp.replace(ph, v, 1) + e)
@@ -126,6 +147,37 @@ def tokenize(s):
             toks.append(s[i])
             i += 1
     return toks
+
+
+class HistObs(list):
+    """observations of the steps of one history (one handler object)"""
+
+
+def history_cases(tier):
+    """(B): sequences of requests on ONE fresh handler object: well-formed value, value without a system, values whose
+    lookup raises (various exception classes), values the transformation chain rejects, repeated"""
+    strict_int = [{"misc.to_int": {"raise_error_if_malformed": True}}]
+    strict_mac = [{"mac_address.normalize": {"raise_error_if_malformed": True}}]
+    fams = [
+        (mkcfg("/...", True, key="k", cont=True, ign=1), ["a", "ab", "x", "b", "ba", "A"], ""),
+        (mkcfg("/...", True, key="k"), ["a", "x", "b", "aba", "2"], ""),
+        (mkcfg("/...", True, key="k", chain=strict_int, cont=True, ign=1), ["12", "0", "zz", "a", "1", "7"], ""),
+        (mkcfg("/...", True, key=":system_id:", chain=strict_mac),
+         ["02-03-04-05-06-0a", "2-3-4-5-6-b", "zz", "a", "02-03-04-05-06-0d"], ""),
+        (mkcfg("/a/...", False, key="k", chain=strict_mac, cont=True, ign=2),
+         ["02-03-04-05-06-0a", "2-3-4-5-6-c", "zz", "02-03-04-05-06-0d", "%zz"], "/a"),
+        (mkcfg("/a/...", False, key="k", cont=True, ign=2, tpre="T-", tsuf="-S"), ["a", "b", "x", "ab"], "/a"),
+        (mkcfg("/...", True, key=":system_id:", chain=["misc.to_int"], ign=1), ["12", "7", "1", "a", "0"], ""),
+    ]
+    k = 0
+    for cfg, pool, extra in fams:
+        uris = [cfg["rpath"].replace("...", v) + extra for v in pool]
+        for n in ((3,) if tier == "quick" else (3, 4)):
+            for seq in itertools.product(uris, repeat=n):
+                if len(set(seq)) == n and n > 3:
+                    continue
+                k += 1
+                yield {"tftp": bool(k % 2), "cfg": cfg, "uri": seq[-1], "hist": list(seq)}
 
 
 class C06(Check):
@@ -168,6 +220,8 @@ class C06(Check):
     # ---- generators
     def gen(self, tier, rng):
         self.tree()
+        for hc in history_cases(tier):
+            yield hc
         cfgs = all_configs()
         n_all = 2 if tier == "quick" else 3
         if os.environ.get("C06_LIMIT_CFGS"):
@@ -184,7 +238,7 @@ class C06(Check):
                         return None
                     seen.add(u)
                     return {"tftp": tftp, "cfg": cfg, "uri": u}
-                for u in ((short if ci % 2 == 0 else short1) if tier == "quick" else (short if ci % 4 == 0 else short2)):
+                for u in ((short if ci % 3 == 0 else short1) if tier == "quick" else (short if ci % 4 == 0 else short2)):
                     c = emit(u)
                     if c:
                         yield c
@@ -241,28 +295,29 @@ class C06(Check):
         return [[list(x) for x in src.log], cls, tc]
 
     def impl(self, c):
+        return self.impl_on(self.handler(c["cfg"], c["tftp"]), self.handler(c["cfg"], False) if c["tftp"] else None, c)
+
+    def impl_on(self, h, hh, c):
+        """one request on handler h (and, for TFTP, the normalised name on the HTTP handler hh of the same configuration)"""
         cfg, tftp, uri = c["cfg"], c["tftp"], c["uri"]
-        h = self.handler(cfg, tftp)
         # the model's unquote must agree with the library on every generated request (compared, not judged)
         dec = urllib.parse.unquote(uri.partition("?")[0])
         if h is None:
             return [False, [False, [], []], False, [], [], dec]
-        src = RecordingSource(TABLE, RAISING, EMPTIES)
+        src = RecordingSource(TABLE, ALL_RAISING, EMPTIES)
         h.set_data_source(src)
         ctx = h.prepare_context(uri)
         can = bool(h.can_handle(uri, ctx))
         hres = [self.do_handle(h, tftp, uri, ctx, src, cfg["template"])] if can else []
         par = []
-        if tftp:
-            hh = self.handler(cfg, False)
-            if hh is not None:
-                # reference reading of "leading slash": decided on the decoded path with the library function
-                nf = uri if urllib.parse.unquote(uri.partition("?")[0]).startswith("/") else "/" + uri
-                src2 = RecordingSource(TABLE, RAISING, EMPTIES)
-                hh.set_data_source(src2)
-                ctx2 = hh.prepare_context(nf)
-                can2 = bool(hh.can_handle(nf, ctx2))
-                par = [nf, canon_ctx(ctx2), [self.do_handle(hh, False, nf, ctx2, src2, cfg["template"])] if can2 else []]
+        if tftp and hh is not None:
+            # reference reading of "leading slash": decided on the decoded path with the library function
+            nf = uri if urllib.parse.unquote(uri.partition("?")[0]).startswith("/") else "/" + uri
+            src2 = RecordingSource(TABLE, ALL_RAISING, EMPTIES)
+            hh.set_data_source(src2)
+            ctx2 = hh.prepare_context(nf)
+            can2 = bool(hh.can_handle(nf, ctx2))
+            par = [nf, canon_ctx(ctx2), [self.do_handle(hh, False, nf, ctx2, src2, cfg["template"])] if can2 else []]
         return [True, canon_ctx(ctx), can, hres, par, dec]
 
     def line(self, c, obs):
@@ -280,38 +335,83 @@ class C06(Check):
             rows = []
             for v in raws:
                 try:
-                    rows.append([v, fileh.tag(fn(v))])
-                except Exception as ex:
-                    rows.append([v, "?chain-raised:" + type(ex).__name__])
+                    rows.append([v, True, fileh.tag(fn(v))])
+                except Exception as ex:          # the chain rejects the value
+                    rows.append([v, False, "?chain-raised:" + type(ex).__name__])
             ttable = [rows]
         # the constant parts are rendered once (the sx text of a list is the texts of its items in parentheses)
         ck = (json.dumps(cfg, sort_keys=True), cfg["filemode"])
         const = self._sxcache.get(ck)
         if const is None:
             const = (sx(fileh.cfg_sx(cfg)) + " " + sx(cfg["tpre"]) + " " + sx(cfg["tsuf"]),
-                     sx(deep_sxstr(FS_ROWS)) + " " + sx(deep_sxstr(RAISING)) + " " + sx(deep_sxstr(EMPTIES)) + " "
+                     sx(deep_sxstr(FS_ROWS)) + " " + sx(deep_sxstr(sorted(RAISING))) + " " + sx(deep_sxstr(sorted(RAISING_BASE)))
+                     + " " + sx(deep_sxstr(EMPTIES)) + " "
                      + sx(files))
             self._sxcache[ck] = const
         return ("(" + sx(c["tftp"]) + " " + sx(bool(c.get("old2f"))) + " " + const[0] + " " + sx(deep_sxstr(ttable))
                 + " " + const[1] + " " + sx(c["uri"]) + " " + sx(self.canon(obs)) + ")")
 
     def canon(self, obs):
+        if isinstance(obs, HistObs):
+            return [deep_sxstr(o) for o in obs]
         return deep_sxstr(obs)
 
     def evaluate(self, cases):
         self.tree()
-        return super().evaluate(cases)
+        out = [None] * len(cases)
+        plain = [(i, c) for i, c in enumerate(cases) if "hist" not in c]
+        if plain:
+            for (i, _), r in zip(plain, super().evaluate([c for _, c in plain])):
+                out[i] = r
+        hist = [(i, c) for i, c in enumerate(cases) if "hist" in c]
+        if hist:
+            # every history gets fresh handler objects; each step is judged like a single request (the model is a
+            # function of the request alone: nothing of an earlier request may show up)
+            all_obs, lines = [], []
+            for _, c in hist:
+                h = fileh.build(c["cfg"], c["tftp"])
+                hh = fileh.build(c["cfg"], False) if c["tftp"] else None
+                obs = []
+                for u in c["hist"]:
+                    sc = dict(c, uri=u)
+                    o = self.impl_on(h, hh, sc)
+                    obs.append(o)
+                    lines.append(self.line(sc, o))
+                all_obs.append(obs)
+            outs = common.run_model(self.ident, lines)
+            pos = 0
+            for (i, c), obs in zip(hist, all_obs):
+                m, fm, fi = [], [], []
+                for ln, res in zip(lines[pos:pos + len(obs)], outs[pos:pos + len(obs)]):
+                    if res.startswith("!") or res.startswith("#"):
+                        raise RuntimeError(f"C06: driver rejected case {ln[:300]} -> {res[:100]}")
+                    r = common.unsx(res)
+                    m.append(r[0])
+                    fm.extend(x for x in common.names(r[1]) if x not in fm)
+                    fi.extend(x for x in common.names(r[2]) if x not in fi)
+                pos += len(obs)
+                out[i] = (c, HistObs(obs), m, fm, fi, [])
+        return out
 
     def nontrivial(self, c, obs):
+        if "hist" in c:
+            return ("hist", json.dumps(c["cfg"], sort_keys=True), c["tftp"], tuple(c["hist"]))
         if obs[0] and obs[2]:
             return (json.dumps(c["cfg"], sort_keys=True), c["tftp"], c["uri"])
         return None
 
     def show(self, c):
+        if "hist" in c:
+            return {"tftp": c["tftp"], "cfg": c["cfg"], "uri": "history of requests on one handler: " + "  ".join(c["hist"]),
+                    "hist": c["hist"]}
         return {"tftp": c["tftp"], "cfg": c["cfg"], "uri": c["uri"].encode("latin-1").decode("latin-1"),
                 "uri_hex": c["uri"].encode("latin-1").hex()}
 
     def shrink(self, c):
+        if "hist" in c:
+            for i in range(len(c["hist"])):
+                yield dict(c, hist=c["hist"][:i] + c["hist"][i + 1:])
+            return
         u = c["uri"]
         toks = tokenize(u)
         for i in range(len(toks)):
